@@ -119,7 +119,9 @@ def one(ctx, where, n, m, N):
     def body(oracle):
         return one_path(ctx, where, n, m, N, oracle, holder)
     from ..libmodels import NeedsOrdering
+    from ..engine import budget
     try:
+      with budget(60, 'fd_derivative windows n=%d m=%d' % (n, m)):
         try:
             runs = [('', approx_paths(body))]
         except NeedsOrdering:
@@ -152,6 +154,7 @@ def one_path(ctx, where, n, m, N, oracle, holder):
     models.bind(I)
     fdd = I.get_global('fornberg', 'fd_derivative')
     fw = I.get_global('fornberg', 'fd_weights')
+    fwa = I.get_global('fornberg', 'fd_weights_all')
     x = Arr((N,), [Poly.sym('x%d' % k) for k in range(N)])
     fx = Arr((N,), [Poly.sym('f%d' % k) for k in range(N)])
     calls = []
@@ -167,6 +170,17 @@ def one_path(ctx, where, n, m, N, oracle, holder):
             cid = len(calls)
             calls.append({'nodes': nodes, 'x0': repr(x0), 'n': nn})
             return (Arr((len(nodes),), [Poly.sym('w%d_%d' % (cid, k)) for k in range(len(nodes))]),)
+        if fn is fwa:
+            # the whole table asked for directly: row r holds the weights of the r-th derivative
+            xa = args[0] if args else kwargs.get('x')
+            x0 = args[1] if len(args) > 1 else kwargs.get('x0', 0)
+            nn = args[2] if len(args) > 2 else kwargs.get('n', 1)
+            if not isinstance(xa, Arr) or not isinstance(nn, int) or isinstance(nn, bool):
+                raise AnalysisError('fd_weights_all called with %r, n=%r' % (type(xa).__name__, nn))
+            nodes = [repr(v) for v in xa.items()]
+            cid = len(calls)
+            calls.append({'nodes': nodes, 'x0': repr(x0), 'n': 'row'})
+            return (Arr((nn + 1, len(nodes)), [Poly.sym('w%dr%d_%d' % (cid, r, k)) for r in range(nn + 1) for k in range(len(nodes))]),)
         return None
     I.on_call = on_call
     try:
@@ -195,6 +209,7 @@ def judge(ctx, where, n, m, N, label, du, calls):
         # v must be sum_k w{cid}_k * f{S[k]}
         cid = None
         pairs = {}
+        rows = set()
         bad = False
         for mono, c in v.t.items():
             d = dict(mono)
@@ -204,6 +219,9 @@ def judge(ctx, where, n, m, N, label, du, calls):
                 bad = True
                 break
             ci, k = ws[0][1:].split('_')
+            if 'r' in ci:
+                ci, row = ci.split('r')
+                rows.add(int(row))
             if cid is None:
                 cid = int(ci)
             if int(ci) != cid:
@@ -217,8 +235,9 @@ def judge(ctx, where, n, m, N, label, du, calls):
         nodes = call['nodes']
         if call['x0'] != 'x%d' % t:
             problems.append('du[%d]: weights expanded about %s instead of x%d' % (t, call['x0'], t))
-        if call['n'] != n:
-            problems.append('du[%d]: weights of derivative order %r instead of %d' % (t, call['n'], n))
+        order_used = call['n'] if call['n'] != 'row' else (rows.pop() if len(rows) == 1 else sorted(rows))
+        if order_used != n:
+            problems.append('du[%d]: weights of derivative order %r instead of %d' % (t, order_used, n))
         if len(set(nodes)) != len(nodes) or len(nodes) < 2 * mm + 1:
             problems.append('du[%d]: %d distinct nodes, need >= %d' % (t, len(set(nodes)), 2 * mm + 1))
         if sorted(pairs) != list(range(len(nodes))):
